@@ -22,8 +22,7 @@ def classify(case, failure):
     q, dspec = case
     _, kind, sels, c, decls = q
     subs = list(fol.subconds(c)) if c else []
-    if any(s[0] == "const" for s in subs):
-        return f"C01/bool-constant/{failure.kind}"
+    # (Python bool constants as conditions were findings C01-F3/F4/F5; repaired, no longer classified)
     if dspec[0] == "sub3" and failure.kind == "unsound-row":
         masks = {"x": dspec[1], "y": dspec[2]}
         if any(d[0] == "dom" and masks.get(d[1], 1) == 0 for d in decls):
